@@ -89,6 +89,7 @@ def build_action(case):
                                           None, None, base, [], ET.Element("device")), services, [])
     dev = mkdev(case.get("prime_base") or case["base"], [svc])
     action._verif_move = (lambda: dev.reinit(mkdev(case["base"], []))) if case.get("prime_base") else (lambda: None)  # noqa: SLF001
+    action._verif_device = dev  # noqa: SLF001
     return action, req
 
 
@@ -158,6 +159,7 @@ def build_action_via_documents(case):
     device = _loop().run_until_complete(factory.async_create_device(case["base"]))
     action = device.service(case["st"]).action(case["action"])
     action._verif_move = lambda: None  # noqa: SLF001
+    action._verif_device = device  # noqa: SLF001
     return action, req
 
 
@@ -345,6 +347,11 @@ class Plugin:
             rng.shuffle(case["kwargs"])
         if rng.random() < 0.35:
             self._add_prime(rng, case)
+        if rng.random() < 0.12:
+            case["unavailable"] = True
+        if rng.random() < 0.12 and not case.get("prime") and [a for a in args if a["dir"] == "in"]:
+            ins_ = [a for a in args if a["dir"] == "in"]
+            case["crowd"] = [[[a["name"], enc(self._good_value(rng, a))] for a in ins_] for _ in range(rng.choice([2, 3]))]
         if rng.random() < 0.3 and not case.get("prime_base"):
             case["via_documents"] = True
             if rng.random() < 0.6:
@@ -528,13 +535,44 @@ class Plugin:
                 pass
         # the device moved (DeviceUpdater: device.reinit with the description at a new URL) after the earlier calls
         action._verif_move()  # noqa: SLF001
+        if case.get("unavailable"):
+            # what DeviceUpdater / the profiles do after a byebye or a failed renewal; a call is still a call
+            action._verif_device.available = False  # noqa: SLF001
         req.calls.clear()
         kwargs = {k: dec(j) for k, j in case["kwargs"]}
         err = None
-        try:
-            _loop().run_until_complete(action.async_call(**kwargs))
-        except Exception as e:  # noqa: BLE001
-            err = e
+        crowd = case.get("crowd") or []
+        if crowd:
+            # the call under test overlaps with other calls of the same action (started before and after it): what it sends
+            # is still what ITS caller asked.  Requests are told apart by the task that issued them.
+            async def tagged(tag, kw):
+                asyncio.current_task().verif_tag = tag
+                return await action.async_call(**kw)
+
+            orig = req.async_http_request
+
+            async def recording(method, url, headers=None, body=None):
+                tag = getattr(asyncio.current_task(), "verif_tag", None)
+                r = await orig(method, url, headers, body)      # the request is recorded as it was handed over (no suspension) ...
+                if tag != "test":
+                    req.calls.pop()                             # ... the other callers' requests are theirs ...
+                for _ in range(3):
+                    await asyncio.sleep(0)                      # ... and the exchange takes a few loop turns: the calls overlap
+                return r
+            req.async_http_request = recording
+            others = [{k: dec(j) for k, j in kw} for kw in crowd]
+            async def run_all():
+                jobs = [tagged("o0", others[0]), tagged("test", kwargs)] + [tagged(f"o{i}", o) for i, o in enumerate(others[1:], 1)]
+                return await asyncio.gather(*jobs, return_exceptions=True)
+            res = _loop().run_until_complete(run_all())
+            req.async_http_request = orig
+            if isinstance(res[1], BaseException):
+                err = res[1]
+        else:
+            try:
+                _loop().run_until_complete(action.async_call(**kwargs))
+            except Exception as e:  # noqa: BLE001
+                err = e
         if not req.calls:
             if err is None:
                 return {"kind": "refused", "exn": "Other:no-exception-no-call", "ncalls": 0}
@@ -651,6 +689,11 @@ class Plugin:
                 "non_strict": sum(1 for c in cases if not c["strict"])}
 
     def shrink(self, case):
+        for flag in ("crowd", "unavailable"):
+            if case.get(flag):
+                c = json.loads(json.dumps(case))
+                del c[flag]
+                yield c
         if case.get("sibling"):
             c = json.loads(json.dumps(case))
             del c["sibling"]
